@@ -84,7 +84,7 @@ def check(chk):
     s = src(f)
     chk.judge('replicas = self._cluster_metadata.get_replicas(keyspace, routing_key)' in s, 'C22.source', f, 'replicas from metadata.get_replicas(keyspace, routing_key)', 'replica source changed')
     sh = [n for n in body_walk(f) if isinstance(n, ast.If) and src(n.test) == 'self.shuffle_replicas']
-    chk.judge(len(sh) == 1 and src(sh[0].body[0]) == 'shuffle(replicas)' and 'shuffle(' not in s.replace('shuffle(replicas)', '', 1), 'C22.source', f,
+    chk.judge(len(sh) == 1 and any(src(x) == 'shuffle(replicas)' for x in sh[0].body) and 'shuffle(' not in s.replace('shuffle(replicas)', '', 1), 'C22.source', f,
               'replicas shuffled only when shuffle_replicas', 'shuffling is unconditional or missing')
     top = f.body[0]
     good = isinstance(top, ast.If) and src(top.test) == 'query and query.keyspace' and 'keyspace = query.keyspace' in src(top.body[0]) and 'keyspace = working_keyspace' in src(top.orelse[0])
@@ -124,3 +124,25 @@ def check(chk):
                 atoms_.add('is-none' if isinstance(par, ast.Compare) and any(isinstance(o, (ast.Is, ast.IsNot)) for o in par.ops) else 'truthiness')
     chk.judge(atoms_ == set(['is-none']), 'C22.cache', rk, 'the cached entry is tested with `is None` / `is not None` only',
               'the entry is tested for truthiness: a cached empty map is never regenerated after ALTER KEYSPACE, get_replicas keeps returning [] and the token-aware plan loses its replicas-first order')
+
+    # the replica list comes from the token map's cache (one list object per token, shared by every plan and every policy):
+    # shuffling is done on a copy
+    chk.rule('C22.copy', 'TokenAwarePolicy shuffles a copy of the replica list, never the list object handed out by the metadata cache')
+    pol_ = chk.repo.mod('cassandra/policies.py')
+    mq = pol_.func('TokenAwarePolicy.make_query_plan')
+    sh = [c_ for c_ in body_walk(mq) if isinstance(c_, ast.Call) and isinstance(c_.func, ast.Name) and c_.func.id == 'shuffle' and c_.args]
+    if not sh:
+        raise AnalysisError('TokenAwarePolicy.make_query_plan: shuffle call not found')
+    for c_ in sh:
+        a_ = c_.args[0]
+        fresh = False
+        if isinstance(a_, ast.Name):
+            defs_ = [x for x in body_walk(mq) if isinstance(x, ast.Assign) and any(isinstance(t, ast.Name) and t.id == a_.id for t in x.targets) and x.lineno < c_.lineno]
+            last = defs_[-1].value if defs_ else None
+            fresh = last is not None and ((isinstance(last, ast.Call) and isinstance(last.func, ast.Name) and last.func.id in ('list', 'sorted', 'tuple')) or
+                                          isinstance(last, (ast.List, ast.ListComp)) or
+                                          (isinstance(last, ast.Subscript) and isinstance(last.slice, ast.Slice)) or
+                                          (isinstance(last, ast.Call) and isinstance(last.func, ast.Attribute) and last.func.attr == 'copy'))
+        chk.judge(fresh, 'C22.copy', c_, 'shuffle(%s) works on a copy made in this call' % src(a_),
+                  'the list returned by get_replicas is the token map\'s cached object: shuffling it in place destroys the ring order for every later plan (also of policies that do '
+                  'not shuffle) and lets two concurrent plans see a replica twice or not at all')
